@@ -298,7 +298,7 @@ func init() {
 		Prop: "C13", Level: "exploration",
 		Gen:  genC13,
 		Exec: execC13,
-		Quick: 450, Thorough: 13500,
+		Quick: 1200, Thorough: 36000,
 		NonTrivial: func(res *Result) bool { return res.Stats["pairs.compared"] > 0 },
 		Rule:       "one logical world per evaluation, materialised twice with exactly one encoding changed (crop parameters classic vs YAML produced by the shipped converter functions, classic vs shipped YAML, soil txt vs CSV, rotation txt vs CSV, measurement txt vs CSV, weather layout 0/1, 0/2, 1/2, date format vs another of the four); both runs through the real session.Run, their complete V/Y/C/M streams compared line by line (dates compared as dates when the date format differs); the first divergent line and simulated day are reported; non-trivial = both runs completed and were compared",
 		ReachKeys:  []string{"kind.crop-yml-converted", "kind.crop-yml-shipped", "kind.soil", "kind.rotation", "kind.measurement", "kind.weather-0-1", "kind.weather-0-2", "kind.weather-1-2", "kind.dateformat", "pairs.compared"},
